@@ -100,6 +100,10 @@ def h_code(params, vals, ctx):
         "twice": ('.rad50 <{V}> <{V}>\n', [(v * 40 + v) * 40]),
         "fourth": ('.rad50 "ABC" <{V}>\n', [(1 * 40 + 2) * 40 + 3, v * 1600]),
         "empty-text": ('.rad50 "" <{V}> ""\n', [v * 1600]),
+        # a concatenated operand that is evaluated more than once: retried because a code names a symbol defined further down, or repeated
+        "late-symbol": ('.rad50 /XY/<code>/Z12/\ncode = {V}\n', [(24 * 40 + 25) * 40 + v, (26 * 40 + 31) * 40 + 32]),
+        "late-symbol-last": ('.rad50 /AB/ /C/ <code>\ncode = {V}\n', [(1 * 40 + 2) * 40 + 3, v * 1600]),
+        "repeat": ('.repeat 3 { .rad50 /AB/<{V}> }\n', [(1 * 40 + 2) * 40 + v] * 3),
     }[shape]
     o = assemble([("a.mac", text)], vals, route=ctx.route)
     ctx.observe_outcome(o)
@@ -194,7 +198,7 @@ def obligations(tier, seed):
                       vars={"N": "int", "I0": "int", "I1": "int", "I2": "int"}, timeout=900, per_path=60, twin=(tier != "thorough" or shard1 == 0),
                       pre=f"every 3-character string starting with letters #{shard} #{shard1}"))
     obs.append(Ob(oid="code/<n>", harness=P + "h_code", params={}, vars={"V": "int"}, timeout=200, pre="every integer n"))
-    for shape in ("alone", "first", "last", "twice", "fourth", "empty-text"):
+    for shape in ("alone", "first", "last", "twice", "fourth", "empty-text", "late-symbol", "late-symbol-last", "repeat"):
         obs.append(Ob(oid=f"code/<n>/{shape}", harness=P + "h_code", params={"shape": shape}, vars={"V": "int"}, timeout=200, pre="every integer n"))
     obs.append(Ob(oid="reject/outside-alphabet", harness=P + "h_reject", params={}, vars={"S_1": "str"}, timeout=900))
     for n in range(0, 13):
